@@ -1,5 +1,129 @@
 import FcpptModel.Prelude.Proto
-/-! Driver for C01 — placeholder until the property's model is built. -/
+import FcpptModel.Model.C01
+import FcpptModel.Drv.C06
+/-!
+Driver for C01: the container / string / argument / file helpers of `Model/C01.lean`; scalar
+operations (`call`, `range1`, …) are delegated to the C06 driver (translated definitions).
+Strings travel as `s:<chars>`, integer lists as `a,b,c` / `-`, argument vectors as `x,y,z` / `_`.
+-/
 namespace Fcppt.C01.Drv
-def main : IO Unit := Fcppt.Proto.run (fun _ => "not-built")
+open Fcppt Fcppt.Proto Fcppt.C01
+
+def showOptInt : M (Option Int) → String
+  | .ok (some v) => s!"some {v}"
+  | .ok none => "none"
+  | .error e => e.name
+
+def payload (t : String) : Option Str := if t.startsWith "s:" then some (t.drop 2).toString.toList else none
+
+def splitList (s : String) : List String := if s = "_" then [] else s.splitOn ","
+
+def colorNames : List String := ["foo", "bar", "baz", "fo", "foobar"]
+
+/-- what the operating system answers for the scratch files the harness creates -/
+def osAnswer : String → Option (Option Nat)
+  | "file0" => some (some 0) | "file5" => some (some 5) | "file4096" => some (some 4096)
+  | "symfile" => some (some 5)
+  | "dir" | "missing" | "dangling" | "dot" | "emptypath" => some none
+  | _ => none
+
+def parsePairs (s : String) : Option (List (Int × Int)) :=
+  (splitList s).mapM fun kv =>
+    match kv.splitOn ":" with
+    | [k, v] => do let k ← k.toInt?; let v ← v.toInt?; pure (k, v)
+    | _ => none
+
+def parseNames (s : String) : Option (List (Str × Bool)) :=
+  (splitList s).mapM fun n =>
+    match n.splitOn ":" with
+    | [name, "s"] => some (name.toList, true)
+    | [name, "l"] => some (name.toList, false)
+    | _ => none
+
+def handle (toks : List String) : String :=
+  match toks with
+  | ["atopt", l, i] =>
+    match parseIntList l, i.toNat? with
+    | some l, some i => showOptInt (atOptional l i)
+    | _, _ => "bad-op"
+  | ["front", l] => match parseIntList l with | some l => showOptInt (maybeFront l) | none => "bad-op"
+  | ["back", l] => match parseIntList l with | some l => showOptInt (maybeBack l) | none => "bad-op"
+  | ["popback", l] =>
+    match parseIntList l with
+    | some l => (match popBack l with
+        | .ok (r, rest) => showOptInt (.ok r) ++ " rest=" ++ (if rest.isEmpty then "-" else intList rest)
+        | .error e => e.name)
+    | none => "bad-op"
+  | ["popfront", l] =>
+    match parseIntList l with
+    | some l => (match popFront l with
+        | .ok (r, rest) => showOptInt (.ok r) ++ " rest=" ++ (if rest.isEmpty then "-" else intList rest)
+        | .error e => e.name)
+    | none => "bad-op"
+  | ["findopt", m, k] =>
+    match parsePairs m, k.toInt? with
+    | some m, some k =>
+      -- std::map::emplace keeps the first pair of a key and iterates in key order; find is by key, so order is irrelevant
+      showOptInt (findOpt m k)
+    | _, _ => "bad-op"
+  | ["fromrange", size, l] =>
+    match size.toNat?, parseIntList l with
+    | some size, some l =>
+      if size ≤ 4 then
+        (match fromRange size l with
+          | .ok (some xs) => "some " ++ (if xs.isEmpty then "-" else intList xs)
+          | .ok none => "none"
+          | .error e => e.name)
+      else "bad-op"
+    | _, _ => "bad-op"
+  | ["rtindex", m, i] =>
+    match m.toNat?, i.toNat? with
+    | some m, some i =>
+      if m ∈ [0, 1, 2, 3, 5] then
+        (match runtimeIndex m i (fun k => s!"f {k}") "fail" with | .ok s => s | .error e => e.name)
+      else "bad-op"
+    | _, _ => "bad-op"
+  | ["enumfs", s] =>
+    match payload s with
+    | some cs => (match fromString colorNames (String.ofList cs) with | some i => s!"some {i}" | none => "none")
+    | none => "bad-op"
+  | ["isflag", s] =>
+    match payload s with
+    | some cs =>
+      (match isFlag cs with
+        | .ok none => "none"
+        | .ok (some (sh, name)) => (if sh then "short" else "long") ++ " s:" ++ String.ofList name
+        | .error e => e.name)
+    | none => "bad-op"
+  | ["nextarg", args, names] =>
+    match parseNames names with
+    | some names =>
+      (match nextArg ((splitList args).map String.toList) names with
+        | .ok (some i) => s!"some {i}"
+        | .ok none => "none"
+        | .error e => e.name)
+    | none => "bad-op"
+  | ["readchars", s, count] =>
+    match payload s, count.toNat? with
+    | some cs, some count =>
+      (match readChars (cs.map Char.toNat) count with
+        | some r => "some s:" ++ String.ofList (r.map Char.ofNat)
+        | none => "none")
+    | _, _ => "bad-op"
+  | ["streamtostring", s] =>
+    match payload s with
+    | some cs => "some s:" ++ String.ofList cs
+    | none => "bad-op"
+  | ["filesize", kind] =>
+    match osAnswer kind with
+    | some os => (match fileSize os with | some n => s!"some {n}" | none => "none")
+    | none => "bad-op"
+  | ["rmext", s] => if (payload s).isSome then "ok" else "bad-op"
+  | ["extract", ty, s] =>
+    if ty ∈ ["int", "uint", "short", "ulong", "string"] ∧ (payload s).isSome then "ok" else "bad-op"
+  | ["dyncast", k] => if k = "d1" then "some" else if k = "d2" ∨ k = "base" then "none" else "bad-op"
+  | _ => Fcppt.C06.Drv.handle toks
+
+def main : IO Unit := Proto.run handle
+
 end Fcppt.C01.Drv
